@@ -82,10 +82,16 @@ def dec_long(L):
 def dec_2d(T, c):
     arr = np.asarray(T, dtype=float)
     n = arr.shape[0]
-    return arr.reshape(n, c, arr.shape[1] // c), (list(T.columns) if isinstance(T, pd.DataFrame) else None), None
+    return (arr.reshape(n, c, arr.shape[1] // c), (list(T.columns) if isinstance(T, pd.DataFrame) else None),
+            (list(T.index) if isinstance(T, pd.DataFrame) else None))
 
 
 # ------------------------------------------------------------------ conversion graph
+def _rows(X):
+    """Row labels handed to from_2d_array_to_nested: the table's own, or 5, 6, ... for a bare array."""
+    return X.index if isinstance(X, pd.DataFrame) else pd.Index(range(5, 5 + len(X)))
+
+
 def edges(c):
     E = {
         "A3": [("Ns", lambda X, nm: dp.from_3d_numpy_to_nested(X, column_names=nm)),
@@ -105,7 +111,11 @@ def edges(c):
     E["Na"] = [("A3", E["Ns"][0][1]), ("MI", E["Ns"][1][1]), ("T2", E["Ns"][3][1])]
     if c == 1:
         E["T2"] = [("Ns", lambda X, nm: dp.from_2d_array_to_nested(np.asarray(X))),
-                   ("Na", lambda X, nm: dp.from_2d_array_to_nested(np.asarray(X), cells_as_numpy=True))]
+                   ("Na", lambda X, nm: dp.from_2d_array_to_nested(np.asarray(X), cells_as_numpy=True)),
+                   # the optional arguments: the table's own row labels, a column name, time labels
+                   ("Ns", lambda X, nm: dp.from_2d_array_to_nested(X, index=_rows(X), columns=["v"]), _rows),
+                   ("Na", lambda X, nm: dp.from_2d_array_to_nested(X, index=list(_rows(X)), cells_as_numpy=True), _rows),
+                   ("Ns", lambda X, nm: dp.from_2d_array_to_nested(X, index=_rows(X), time_index=np.arange(3, 3 + X.shape[1])), _rows)]
     return E
 
 
@@ -163,7 +173,8 @@ def oracle(case, ctx):
         nonlocal n_paths
         if len(discs) >= 1 or depth == 0:
             return
-        for (to, fn) in E[kind]:
+        for edge in E[kind]:
+            to, fn = edge[0], edge[1]
             r = sut(fn, obj, names_exp if (kind == "A3" and names_exp is not None) else (case["names"] if kind == "A3" else None))
             p = path + [to]
             n_paths += 1
@@ -192,6 +203,14 @@ def oracle(case, ctx):
                 discs.append(D("malformed_result:%s->%s" % (kind, to), "path %s: %r" % ("->".join(p), d)))
                 return
             got, gnames, ginst = d
+            # instance labels are pinned down only where the caller passes them explicitly
+            # (from_2d_array_to_nested(index=...): "row index of the transformed DataFrame")
+            if ginst is not None and len(edge) == 3:
+                want_inst = list(edge[2](obj))
+                if [str(v) for v in ginst] != [str(v) for v in want_inst]:
+                    discs.append(D("instance_labels_differ:%s->%s" % (kind, to), "path %s: instance labels %s expected %s"
+                                   % ("->".join(p), ginst, want_inst)))
+                    return
             if got.shape != A2.shape or not np.array_equal(got, A2):
                 discs.append(D("values_differ:%s->%s" % (kind, to), "path %s names=%s: got %s expected %s"
                                % ("->".join(p), names, got.tolist(), A2.tolist())))
@@ -295,6 +314,12 @@ def oracle(case, ctx):
     r = sut(check_X, starts["Ns"], coerce_to_numpy=True)
     if isinstance(r, Raised) or not (isinstance(r, np.ndarray) and np.array_equal(r, A)):
         discs.append(D("check_X_coerce_to_numpy", repr(r)[:200]))
+    # a primitive column counts as the same value at every time point of the instance, whatever
+    # the instance labels and their order are
+    rep = np.concatenate([A, np.repeat(np.arange(n, dtype=float)[:, None, None], t, axis=2)], axis=1)
+    r = sut(check_X, mixed, coerce_to_numpy=True)
+    if isinstance(r, Raised) or not (isinstance(r, np.ndarray) and r.shape == rep.shape and np.array_equal(r, rep)):
+        discs.append(D("check_X_coerce_to_numpy:primitive_column", "instance labels %s: %s" % (inst, repr(r)[:200])))
     r = sut(check_X, A.copy(), coerce_to_pandas=True)
     if isinstance(r, Raised) or not isinstance(r, pd.DataFrame) or not np.array_equal(dec_nested(r)[0], A):
         discs.append(D("check_X_coerce_to_pandas", repr(r)[:200]))
